@@ -6,7 +6,7 @@
 (* for the replay driver (R1); the invariants are the R3 design-level check   *)
 (* that the descriptive model itself satisfies the normative clauses.         *)
 EXTENDS Graphs
-CONSTANTS Depth, Rich
+CONSTANTS Depth, Rich, Interp     \* Interp: the handles are FactorGraphs (domains, factors, weights)
 VARIABLES s, last
 
 NA == [id |-> "x", l |-> "A"]   NB == [id |-> "x", l |-> "B"]
@@ -27,17 +27,31 @@ EdgeVals == UNION { { [id |-> i, lab |-> lab, att |-> a] : i \in EdgeIds, a \in 
 ExtSeqs == { x \in BSeqsUpTo(NodeVals, 2) : BNoDup(x) } 
 
 Handles == {"g1", "g2"}
-Calls == { [op |-> "add_node", h |-> h, n |-> n] : h \in Handles, n \in NodeVals }
-    \cup { [op |-> "remove_node", h |-> h, n |-> n] : h \in Handles, n \in NodeVals }
-    \cup { [op |-> "add_edge", h |-> h, e |-> e] : h \in Handles, e \in EdgeVals }
-    \cup { [op |-> "remove_edge", h |-> h, e |-> e] : h \in Handles, e \in EdgeVals }
-    \cup { [op |-> "set_ext", h |-> h, x |-> x] : h \in Handles, x \in ExtSeqs }
-    \cup { [op |-> "copy", h |-> h] : h \in Handles }      \* the OTHER handle := copy of h
-    \cup { [op |-> "new", h |-> "g2"] }                     \* g2 := Graph()
+PlainCalls ==
+       { [op |-> "add_node", h |-> h, n |-> n] : h \in Handles, n \in NodeVals }
+  \cup { [op |-> "remove_node", h |-> h, n |-> n] : h \in Handles, n \in NodeVals }
+  \cup { [op |-> "add_edge", h |-> h, e |-> e] : h \in Handles, e \in EdgeVals }
+  \cup { [op |-> "remove_edge", h |-> h, e |-> e] : h \in Handles, e \in EdgeVals }
+  \cup { [op |-> "set_ext", h |-> h, x |-> x] : h \in Handles, x \in ExtSeqs }
+  \cup { [op |-> "copy", h |-> h] : h \in Handles }      \* the OTHER handle := copy of h
+  \cup { [op |-> "new", h |-> "g2"] }                     \* g2 := Graph() / FactorGraph()
+D2 == [cls |-> "range", size |-> 2, vals |-> <<0, 1>>]
+D3 == [cls |-> "range", size |-> 3, vals |-> <<0, 1, 2>>]
+F2 == [doms |-> <<D2>>, shape |-> <<2>>, w |-> <<1, 2>>]
+F3 == [doms |-> <<D3>>, shape |-> <<3>>, w |-> <<1, 2, 3>>]
+F22 == [doms |-> <<D2, D2>>, shape |-> <<2, 2>>, w |-> <<1, 2, 3, 4>>]
+\* FactorGraph handles: a reduced graph alphabet plus the interpretation calls
+InterpCalls ==
+       { [op |-> "add_edge", h |-> h, e |-> e] : h \in Handles, e \in { x \in EdgeVals : x.id = "e" /\ x.lab \in {La, Lb} /\ \A i \in DOMAIN x.att : x.att[i] = NA } }
+  \cup { [op |-> "copy", h |-> h] : h \in Handles } \cup { [op |-> "new", h |-> "g2"] }
+  \cup { [op |-> "add_domain", h |-> h, nl |-> nl, dom |-> d] : h \in Handles, nl \in {"A", "B"}, d \in {D2, D3} }
+  \cup { [op |-> "add_factor", h |-> h, el |-> l, fac |-> f] : h \in Handles, l \in {La, La2, Lb}, f \in {F2, F3, F22} }
+  \cup { [op |-> "set_weights", h |-> h, name |-> "a", w |-> w] : h \in Handles, w \in {<<7, 8>>, <<7, 8, 9>>} }
+Calls == IF Interp THEN InterpCalls ELSE PlainCalls
 
 Apply(st, c) == HeapApply(st, c)
 
-Init == s = [g1 |-> GEmpty, g2 |-> NoObj] /\ last = [op |-> "init"]
+Init == s = [g1 |-> IF Interp THEN GEmptyF ELSE GEmpty, g2 |-> NoObj] /\ last = [op |-> "init"]
 Next == \E c \in Calls : LET r == Apply(s, c) IN
           /\ r.out # "skip"
           /\ s' = r.s
